@@ -85,6 +85,48 @@ func toRepoRR(rr dnsx.RR) dns.RR {
 	return out
 }
 
+// respell rewrites m in place into an equivalent spelling and says what it changed.
+func respell(rng *mrand.Rand, m *dns.Message) []string {
+	var what []string
+	dot := func(n string) string {
+		if n != "" && !strings.HasSuffix(n, ".") && rng.IntN(2) == 0 {
+			what = append(what, "fqdn:"+n)
+			return n + "."
+		}
+		return n
+	}
+	v4 := func(ip net.IP) net.IP {
+		if len(ip) == 4 && rng.IntN(2) == 0 {
+			what = append(what, "ip16:"+ip.String())
+			return ip.To16()
+		}
+		return ip
+	}
+	for _, sec := range [][]dns.RR{m.Answer, m.Authority, m.Additional} {
+		for j := range sec {
+			rr := &sec[j]
+			if rr.Type != 41 {
+				rr.Name = dot(rr.Name)
+			}
+			switch d := rr.Data.(type) {
+			case net.IP:
+				if rr.Type == 1 {
+					rr.Data = v4(d)
+				}
+			case string:
+				rr.Data = dot(d)
+			case dns.HTTPS:
+				d.Target = dot(d.Target)
+				for k := range d.IPv4Hint {
+					d.IPv4Hint[k] = v4(d.IPv4Hint[k])
+				}
+				rr.Data = d
+			}
+		}
+	}
+	return what
+}
+
 func b2u(b bool) uint8 {
 	if b {
 		return 1
@@ -514,6 +556,12 @@ func TestCheck(t *testing.T) {
 			in.Question[0].Name = "." // both spellings of the root
 		}
 		payload := newCase(spec, map[string]any{"class": c.class})
+		if i%4 == 2 {
+			// other Go spellings of the same message: IPv4 addresses in net.IP's 16-byte form (what net.ParseIP
+			// returns), names written as FQDNs with a trailing dot. The wire form does not change.
+			payload.set("respelled", respell(rng, in))
+			r.Count("encode_messages_respelled", 1)
+		}
 		r.Guard("encode", i, "encode", payload, func() {
 			got := in.Bytes()
 			payload.set("bytes", got)
@@ -598,6 +646,7 @@ func TestCheck(t *testing.T) {
 		}
 	})
 	r.Floor("encode_messages", int64(nEnc))
+	r.Floor("encode_messages_respelled", int64(nEnc)/5)
 	r.Floor("encode_roundtrip_equal", int64(nEnc)*8/10)
 	r.Floor("extended_rcodes_above_15", 100)
 	r.Floor("aaaa_ipv4_mapped_encoded", int64(nEnc)/100)
